@@ -11,11 +11,14 @@ import (
 	"go/parser"
 	"go/token"
 	"path/filepath"
+	"reflect"
 	"sort"
 	"strconv"
 	"strings"
 	"sync"
 	"time"
+
+	"google.golang.org/protobuf/encoding/protowire"
 
 	"storj.io/picobuf"
 	"storj.io/picobuf/picoconv"
@@ -43,6 +46,9 @@ func init() {
 			if err != nil {
 				continue
 			}
+			// time.Time values in a non-UTC location (what time.Now()/time.Unix() give callers)
+			localizeTimes(reflect.ValueOf(m).Elem(), cr.intn(2) == 0)
+			before, _ := u.read(ti, m)
 			base, pan := safeMarshal(m)
 			if pan != "" {
 				continue
@@ -50,9 +56,22 @@ func init() {
 			seq := ti.New()
 			seqSt := safeUnmarshal(base, seq)
 			seqVal, _ := u.read(ti, seq)
+			baseSt, baseVal := seqSt, seqVal // what the Marshal output denotes
 			var wg sync.WaitGroup
 			results := make([]string, g)
 			shared := append([]byte{}, base...) // the same input bytes for every decoder
+			if cr.intn(2) == 0 {
+				// a wire-equivalent rewriting with injected unknown fields and (nested) groups
+				if recs, ok := u.parseRecs(ti, nil, base); ok {
+					st := rwStats{}
+					shared = serialize(u.rewrite(cr, ti, nil, recs, st, 0))
+					shared = append(shared, nestedSiblingGroups(cr, &ti.S.Msgs[ti.MI])...)
+					seq = ti.New()
+					seqSt = safeUnmarshal(shared, seq)
+					seqVal, _ = u.read(ti, seq)
+				}
+			}
+			sharedCopy := append([]byte{}, shared...)
 			for j := 0; j < g; j++ {
 				wg.Add(1)
 				go func(j int) {
@@ -74,8 +93,8 @@ func init() {
 						y := ti.New()
 						st := safeUnmarshal(b, y)
 						yv, _ := u.read(ti, y)
-						if st != seqSt || (yv != nil && seqVal != nil && yv.String() != seqVal.String()) {
-							results[j] = "marshal-differs(map):" + hex.EncodeToString(b)
+						if st != baseSt || (yv != nil && baseVal != nil && yv.String() != baseVal.String()) {
+							results[j] = "marshal-differs(map):" + st + "|" + baseSt + "|" + firstDiff(yv, baseVal)
 							return
 						}
 					}
@@ -109,8 +128,11 @@ func init() {
 					bad = append(bad, s)
 				}
 			}
-			if !bytes.Equal(shared, base) {
+			if !bytes.Equal(shared, sharedCopy) {
 				bad = append(bad, "shared-input-modified")
+			}
+			if after, _ := u.read(ti, m); before != nil && after != nil && before.String() != after.String() {
+				bad = append(bad, "message-modified-by-Marshal")
 			}
 			status := "ok"
 			if len(bad) > 0 {
@@ -251,4 +273,74 @@ func isPkgLevel(p *ast.Package, id *ast.Ident) bool {
 		}
 	}
 	return false
+}
+
+// localizeTimes moves every non-zero time.Time reachable from v into a fixed non-UTC zone
+// (same instant): Marshal must not care, and must not write the value back.
+func localizeTimes(v reflect.Value, fixed bool) {
+	loc := time.FixedZone("verif", 3600)
+	if !fixed {
+		loc = time.Local
+	}
+	switch v.Kind() {
+	case reflect.Struct:
+		if v.Type() == timeType {
+			t := v.Interface().(time.Time)
+			if !t.IsZero() && v.CanSet() {
+				v.Set(reflect.ValueOf(t.In(loc)))
+			}
+			return
+		}
+		for i := 0; i < v.NumField(); i++ {
+			if v.Field(i).CanSet() || v.Field(i).Kind() == reflect.Ptr || v.Field(i).Kind() == reflect.Slice {
+				localizeTimes(v.Field(i), fixed)
+			}
+		}
+	case reflect.Ptr, reflect.Interface:
+		if !v.IsNil() {
+			localizeTimes(v.Elem(), fixed)
+		}
+	case reflect.Slice:
+		for i := 0; i < v.Len(); i++ {
+			localizeTimes(v.Index(i), fixed)
+		}
+	}
+}
+
+// nestedSiblingGroups: an unknown group containing sibling groups with different numbers
+func nestedSiblingGroups(r *rng, msg *Msg) []byte {
+	var b []byte
+	outer := unknownNumber(r, msg)
+	b = protowire.AppendTag(b, outer, protowire.StartGroupType)
+	for i := 0; i < 2+r.intn(4); i++ {
+		n := protowire.Number(50 + i)
+		b = protowire.AppendTag(b, n, protowire.StartGroupType)
+		b = protowire.AppendVarint(protowire.AppendTag(b, 1, protowire.VarintType), uint64(i))
+		b = protowire.AppendTag(b, n, protowire.EndGroupType)
+	}
+	b = protowire.AppendTag(b, outer, protowire.EndGroupType)
+	return b
+}
+
+func firstDiff(a, b *Val) string {
+	if a == nil || b == nil {
+		return "nil"
+	}
+	x, y := a.String(), b.String()
+	i := 0
+	for i < len(x) && i < len(y) && x[i] == y[i] {
+		i++
+	}
+	lo := i - 60
+	if lo < 0 {
+		lo = 0
+	}
+	hx, hy := i+80, i+80
+	if hx > len(x) {
+		hx = len(x)
+	}
+	if hy > len(y) {
+		hy = len(y)
+	}
+	return x[lo:hx] + " <> " + y[lo:hy]
 }
